@@ -62,15 +62,23 @@ public:
         }
     }
 
-    void subscribe(awaiter_collector &chain) {
+    /**
+     * @return previous top of the chain. Don't read _next after the awaiter is
+     * subscribed, the other thread can already modify it (or destroy the awaiter)
+     */
+    awaiter *subscribe(awaiter_collector &chain) {
         assert (this != chain.load(std::memory_order_relaxed));
         //release memory order because we need to other thread to see change of _next
         //this is last operation of this thread with awaiter
         COCLS_VERIF_POINT(aw_sub_pre);
-        while (!chain.compare_exchange_weak(_next, this, std::memory_order_release));
+        awaiter *prev = _next;
+        do {
+            _next = prev;
+        } while (!chain.compare_exchange_weak(prev, this, std::memory_order_release));
         COCLS_VERIF_POINT(aw_sub_post);
 
-        assert (_next != this);
+        assert (prev != this);
+        return prev;
     }
     ///releases chain atomicaly
     /**
